@@ -157,6 +157,17 @@ mod value_rt {
         let mut m = Value::Map(Default::default());
         if let Value::Map(mm) = &mut m { mm.insert(x.clone(), x.clone()); mm.insert(Value::Symbol(Symbol::from("k")), x.clone()); }
         out.push(m);
+        // a map entry whose VALUE is of another kind than its key (a one-shot marker set by the key -- timestamp, array -- must not reach the value: D26, D68)
+        let mut m2 = Value::Map(Default::default());
+        if let Value::Map(mm) = &mut m2 { mm.insert(x.clone(), Value::List(vec![Value::Int(7), Value::Bool(true)])); }
+        out.push(m2);
+        let mut m3 = Value::Map(Default::default());
+        if let Value::Map(mm) = &mut m3 { mm.insert(x.clone(), Value::Long(5)); }
+        out.push(m3);
+        // arrays of compound elements of DIFFERENT encoded widths under one element constructor (D69)
+        out.push(Value::Array(Array::from(vec![Value::List(vec![]), Value::List(vec![x.clone()])])));
+        out.push(Value::Array(Array::from(vec![Value::List(vec![x.clone()]), Value::List(vec![])])));
+        out.push(Value::Array(Array::from(vec![Value::List(vec![x.clone()]), Value::List(vec![x.clone(); 40])])));
         out.push(Value::Described(Box::new(Described { descriptor: Descriptor::Code(0x13), value: x.clone() })));
         out.push(Value::Described(Box::new(Described { descriptor: Descriptor::Name(Symbol::from("a:b")), value: x.clone() })));
         out
@@ -184,6 +195,11 @@ mod value_rt {
             Ok(Ok(b)) => b,
         };
         let hx: String = b.iter().take(48).map(|x| format!("{:02x}", x)).collect::<Vec<_>>().join(" ");
+        match std::panic::catch_unwind(|| serde_amqp::serialized_size(v)) {
+            Ok(Ok(n)) if n != b.len() => return Some(format!("serde_amqp::serialized_size({}) = {} but to_vec writes {} octets [{}{}]", show(v), n, b.len(), hx, if b.len() > 48 { " .." } else { "" })),
+            Err(_) => return Some(format!("serde_amqp::serialized_size({}) PANICS", show(v))),
+            _ => {}
+        }
         match std::panic::catch_unwind(|| from_slice::<Value>(&b)) {
             Err(_) => Some(format!("serde_amqp round trip: {} is encoded as [{}{}] ({} bytes), on which from_slice PANICS", show(v), hx, if b.len() > 48 { " .." } else { "" }, b.len())),
             Ok(Err(e)) => Some(format!("serde_amqp round trip: {} is encoded as [{}{}] ({} bytes), which does not decode: {:?}", show(v), hx, if b.len() > 48 { " .." } else { "" }, b.len(), e)),
